@@ -710,6 +710,45 @@ func c13LoadSeeds(rep *verifkit.Report, mig *configmigrate.Migrator, dataDir str
 			seeds = append(seeds, c13Seed{Name: fmt.Sprintf("clients#%d@%d", j, k), Body: body})
 		}
 	}
+	// Synthetic documents with 2-8 filters and allow-list filters whose url is
+	// a distinct absolute local path (step 29 derives a list from them), at
+	// every version.
+	for j := 0; j < verifkit.Pick(3, 8); j++ {
+		var root map[string]any
+		if yaml.Unmarshal(oldB, &root) != nil || root == nil {
+			continue
+		}
+		mk := func(kind string, n int) []any {
+			var l []any
+			for i := 0; i < n; i++ {
+				l = append(l, map[string]any{"url": fmt.Sprintf("/verif-c13/%s/list-%d-%c%d.txt", kind, j, 'a'+byte(mrng.Intn(26)), i),
+					"name": fmt.Sprintf("%s %d-%d", kind, j, i), "enabled": i%2 == 0, "id": 100*j + i + 1})
+			}
+			if mrng.Intn(2) == 0 {
+				l = append(l, map[string]any{"url": fmt.Sprintf("https://lists.example/%s-%d.txt", kind, j), "name": "remote", "enabled": true, "id": 100*j + 99})
+			}
+			mrng.Shuffle(len(l), func(a, b int) { l[a], l[b] = l[b], l[a] })
+			return l
+		}
+		root["filters"] = mk("filters", 2+mrng.Intn(7))
+		root["whitelist_filters"] = mk("allow", 2+mrng.Intn(7))
+		src, merr := yaml.Marshal(root)
+		if merr != nil {
+			continue
+		}
+		for k := 0; k < c13Last; k++ {
+			body := src
+			if k > 0 {
+				o := c13Run(mig, src, uint(k))
+				if o.Panicked || o.Err != nil || !o.Upgraded {
+					rep.Event("synthetic_seed_not_derivable")
+					continue
+				}
+				body = o.Body
+			}
+			seeds = append(seeds, c13Seed{Name: fmt.Sprintf("filters#%d@%d", j, k), Body: body})
+		}
+	}
 	// Minimal documents.
 	for k := 0; k <= c13Last; k++ {
 		seeds = append(seeds, c13Seed{Name: fmt.Sprintf("min:version-only@%d", k),
@@ -1466,10 +1505,8 @@ func c13CheckMoves(from int, in, out map[string]any) (losses []c13Loss, compared
 					for _, g := range got {
 						gs = append(gs, c13Canon(g))
 					}
-					w := append([]string{}, want...)
-					sort.Strings(w)
-					sort.Strings(gs)
-					if !isList || strings.Join(w, ",") != strings.Join(gs, ",") {
+					// Order-sensitive: ip first, then mac, as the step documents.
+					if !isList || strings.Join(want, ",") != strings.Join(gs, ",") {
 						bad("clients[].ids", fmt.Sprintf("client %d (name %v) has ip/mac %v in the input but ids %.200s in the result", i, a["name"], want, c13Canon(b["ids"])))
 					}
 				}
@@ -2509,6 +2546,8 @@ func TestVerifC13(t *testing.T) {
 	// Working directory forms and credentials (c13_env_test.go).
 	c13WorkingDirSection(t, rep, seeds)
 	c13CredentialsSection(t, rep)
+	// The same input upgraded several times (c13_env_test.go).
+	c13RepeatSection(t, rep, seeds)
 	// Log levels of the process (c13_loglevel_test.go).
 	c13LogLevelSection(t, rep, seeds)
 
